@@ -385,6 +385,51 @@ func ruleR2c(c *Ctx) *RuleResult {
 		if !retOnlyFresh(s.Ret[0]) {
 			bad = append(bad, "Ret="+s.Ret[0].String())
 		}
+		// the result is *sorted*: every path that returns two or more values has sorted exactly the slice it returns, last
+		// (a hand-written "already in order?" scan with < calls a slice with a NaN in it sorted)
+		if gc := c.GC(fn); gc.Undecided == "" {
+			for _, g := range gc.GCs {
+				if g.Exit.Op != "return" || len(g.Exit.Args) != 1 {
+					continue
+				}
+				res := noEpoch(g.Exit.Args[0])
+				short := false
+				for _, at := range g.Guards {
+					// len(values) < 2
+					if at.Op == "<" && len(at.Args) == 2 && at.Args[0].Op == "len" && noEpoch(at.Args[0].Args[0]) == res {
+						if k, ok := at.Args[1].constInt(); ok && k <= 2 {
+							short = true
+						}
+					}
+					// len(values) <= 1
+					if at.Op == "<=" && len(at.Args) == 2 && at.Args[0].Op == "len" && noEpoch(at.Args[0].Args[0]) == res {
+						if k, ok := at.Args[1].constInt(); ok && k <= 1 {
+							short = true
+						}
+					}
+					// len(values) == 0 / == 1
+					if at.Op == "==" && len(at.Args) == 2 && at.Args[1].Op == "len" && noEpoch(at.Args[1].Args[0]) == res {
+						if k, ok := at.Args[0].constInt(); ok && k <= 1 {
+							short = true
+						}
+					}
+					if at.Op == "std" && (at.Leaf == "slices.IsSorted" || at.Leaf == "slices.IsSortedFunc") && len(at.Args) >= 2 && noEpoch(at.Args[1]) == res {
+						short = true // the standard library's own order test
+					}
+				}
+				sorted := false
+				for _, ef := range g.Effects {
+					if ef.Op == "stddo" && strings.HasPrefix(ef.Leaf, "slices.Sort") && len(ef.Args) >= 1 && noEpoch(ef.Args[0]) == res {
+						sorted = true
+					} else if sorted && (ef.Op == "stddo" || ef.Op == "builtin" || isStore(ef)) {
+						bad = append(bad, "the slice is modified after it was sorted: "+trunc(noEpoch(ef), 120))
+					}
+				}
+				if !short && !sorted {
+					bad = append(bad, "a path returns two or more values without having sorted them: "+trunc(guardsString(g), 200))
+				}
+			}
+		}
 		if u := undecidedFacts(s); len(u) > 0 {
 			r.undecided(p.FuncKey(fn), clause, p.FuncPos(fn), strings.Join(u, "; "))
 		} else if len(bad) > 0 {
